@@ -100,6 +100,14 @@ class Capture:
 
         def linear_solve(matrix, rhs, *a, **k):
             idx = len(cap.linear_calls)
+            if cap.fail_at is not None and idx == cap.fail_at and cap.deep == "nan":
+                # silent breakdown of the back-end: it returns a vector of NaN without raising (what scipy's cg does
+                # when rho_prev == 0, observed on a degenerate 1-D system)
+                out = orig_ls(matrix, rhs, *a, **k)
+                out[0][:] = np.nan
+                cap.linear_calls.append({"index": idx, "raised": False, "depth": "nan-returned"})
+                cap.post_fired = True
+                return out
             if cap.fail_at is not None and idx == cap.fail_at and cap.deep == "post":
                 out = orig_ls(matrix, rhs, *a, **k)
                 cap.linear_calls.append({"index": idx, "raised": False, "depth": "post-armed"})
